@@ -688,6 +688,17 @@ def run_trading(rnd, S, cfgk, intensity=1.0, script=None, analyser=False, ids=No
                     call.update(api="probe_validators", args=(oid, 100, lim))
                     tr.probe_orders.add(o.order_id)
                     env.can_submit_order(o)
+                elif S.get("_probe_validators") and stocks and "STOCK" in before and srnd.random() < 0.25 and \
+                        any(next(x for x in S["stocks"] if x["id"] == i_)["bars"].get(S["cal"].index(env.trading_dt.date())) is None for i_ in stocks):
+                    # the generic submit_order API with a LIMIT price on a day on which the instrument has no bar (no valid price): nothing to trade against
+                    di_ = S["cal"].index(env.trading_dt.date())
+                    oid = next(i_ for i_ in stocks if next(x for x in S["stocks"] if x["id"] == i_)["bars"].get(di_) is None)
+                    srec_ = next(x for x in S["stocks"] if x["id"] == oid)
+                    known_ = [srec_["bars"][j] for j in sorted(srec_["bars"]) if j <= di_] or [srec_["bars"][min(srec_["bars"])]]
+                    lim_ = known_[-1][2]
+                    call.update(api="submit_order_no_bar", args=(oid, 100, lim_))
+                    r_ = api.submit_order(oid, 100, SIDE.BUY, price=lim_, position_effect=POSITION_EFFECT.OPEN)
+                    res = [r_] if r_ is not None else []
                 elif r < 0.05 and stocks and "STOCK" in before and before["STOCK"]["holdings"]:
                     # directed combination: buy today, rest a sell above the market, then sell (about) the whole holding
                     h = srnd.choice(before["STOCK"]["holdings"])
